@@ -259,6 +259,14 @@ def build_parser(shape, eoe, mode, variant, files_dir):
         p.add_argument("--fc", type=Callable[[int], M.Base])
         p.add_argument("--ty", type=Type[M.Base])
         p.add_argument("--uc", type=Union[M.Other, int])
+        # subclass-typed arguments whose DEFAULT carries init_args (lazy_instance / dict spec): a source that is merged with the
+        # defaults (config text, file, environment, default config file) may then name the class alone
+        from jsonargparse import lazy_instance
+
+        p.add_argument("--dm", type=M.Base, default=lazy_instance(M.Sub, a=5, b=0.1))
+        p.add_argument("--dd", type=M.Base, default={"class_path": modname() + ".Sub", "init_args": {"a": 5, "b": 0.1}})
+        p.add_argument("--dn", type=Optional[M.Base],
+                       default=lazy_instance(M.Sub, a=3, inner=lazy_instance(M.Base, a=7)))
         if variant.get("required"):
             p.add_argument("--rc", type=M.Req, required=True)
     elif shape in ("cfgfile", "defcfg"):
@@ -289,7 +297,8 @@ OPTS = {
     "groups": ["cfg", "g.a", "g.b.c", "g.l", "g", "g.b", "dc", "dc.x", "dc.y", "odc", "odc.x", "ldc", "mdc", "mdc.k", "dc2", "dc2.d.x", "dc2.d", "dc2.n", "cls.a", "cls.name", "cls", "ap", "ap.v", "ap.w.z", "ap.w"],
     "subcommands": ["cfg", "t", "s1.a", "s1", "s2", "a", "b", "n.x", "lst", "c", "subcommand", "p", "q", "sub2"],
     "subclass": ["cfg", "c", "c.a", "c.init_args.a", "c.class_path", "c.init_args", "c.dict_kwargs.k", "c.b", "c.inner", "c.inner.a", "c.inner.init_args.a",
-                 "c.help", "oc", "oc.a", "lc", "lc.a", "mc", "mc.k", "cal", "cal.firstweekday", "fn", "fc", "fc.a", "ty", "uc", "uc.c", "rc", "rc.must"],
+                 "c.help", "oc", "oc.a", "lc", "lc.a", "mc", "mc.k", "cal", "cal.firstweekday", "fn", "fc", "fc.a", "ty", "uc", "uc.c", "rc", "rc.must",
+                 "dm", "dm", "dd", "dd", "dn", "dm.a", "dd.init_args.b", "dn.inner", "dn.inner.a", "dm.class_path", "dd.class_path", "dn.init_args.inner.class_path"],
     "cfgfile": ["cfg", "i", "s", "li", "la", "d", "g.a", "c", "c.a", "dc", "dc.x"],
     "defcfg": ["cfg", "i", "s", "li", "la", "d", "g.a", "c", "c.a", "dc", "dc.x"],
     "links": ["cfg", "a", "b", "q", "x.a", "x.name", "y.c", "y.color", "sub", "sub.a", "sub.init_args.a"],
@@ -441,6 +450,15 @@ def gen_obj(rng, shape, m, depth=0):
     return d
 
 
+def default_cfg_with_init_args(m, mode):
+    """default config documents that give a subclass-typed argument non-empty init_args"""
+    docs = [{"c": {"class_path": m + ".Sub", "init_args": {"a": 5, "b": 0.1}}},
+            {"c": {"class_path": m + ".Sub", "init_args": {"a": 5, "inner": {"class_path": m + ".Base", "init_args": {"a": 7}}}}},
+            {"dm": {"class_path": m + ".Base", "init_args": {"a": 9}}},
+            {"dd": m + ".Base"}, {"dm": {"class_path": m + ".Sub"}}, {"dn": m + ".Base"}, {"c": m + ".Base"}]
+    return docs
+
+
 RAW_TEXTS = [
     "", " ", "\n", "[1]", "3", "null", "x", "\u00b2", "-\u00b3", " \u2460 ", "i: \u00b2", "li: [\u00b2, \u0663]", "f: \u00b2.5", "a: 1\n---\nb: 2\n", "a: [\n", "{", "}", "a: b: c", "\ta: 1", "a: 1\n\tb: 2", "? [1]\n: 1", "1: 1", "null: 1", "true: 1", '"": 1',
     "i: 0x_", "s: ._", "i: 0b_", "la: &a [*a]", "la: &a\n- *a\n", "la: [&a [1], *a, *a]", "la: *nope", "i: !!python/object:os.system x", "s: !!binary x",
@@ -514,7 +532,9 @@ def gen_case(rng, thorough=False):
             case["kw"] = kw
     if shape == "defcfg" or variant["defcfg"]:
         r = rng.random()
-        if r < 0.5:
+        if r < 0.15:
+            case["files"]["default.cfg"] = json.dumps(rng.choice(default_cfg_with_init_args(m, mode)))
+        elif r < 0.5:
             case["files"]["default.cfg"] = dump_obj(jsonable_obj(rng, shape, m), mode, rng)
         elif r < 0.85:
             case["files"]["default.cfg"] = rng.choice(RAW_TEXTS)
@@ -937,6 +957,8 @@ class Tracer:
         _typehints.ActionTypeHint._check_type = W("checkType", _typehints.ActionTypeHint._check_type)
         AP._check_value_key = W("checkValueKey", AP._check_value_key)
         AP.merge_config = W("merge", AP.merge_config)
+        _typehints.ActionTypeHint.discard_init_args_on_class_path_change = staticmethod(
+            W("discardStatic", _typehints.ActionTypeHint.discard_init_args_on_class_path_change))
 
         def import_region(tr):
             fn, line = caller()
